@@ -1,5 +1,6 @@
 import CwPlus.Model.Cw20
 import CwPlus.Lemmas.Cw20Draw
+import CwPlus.Lemmas.Cw20Marketing
 /-!
 # C02 — cw20: balances move only by the holder or within a valid allowance
 
@@ -184,6 +185,10 @@ theorem nondraw_bal {s s' : State} {blk : Block} {snd : Addr} {msg : Msg} {out :
   case decreaseAllowance sp amt e =>
     obtain ⟨_, _, old, _, _, hc⟩ := execDecreaseAllowance_inv h
     rcases hc with ⟨_, _, rfl⟩ | ⟨_, rfl⟩ <;> simp at hlt
+  case updateMarketing p d m =>
+    obtain ⟨mk, rfl, _⟩ := execUpdateMarketing_frame h; simp at hlt
+  case uploadLogo l =>
+    obtain ⟨mk, rfl, _⟩ := execUploadLogo_frame h; simp at hlt
 
 /-! ## Clause 1: a balance decreases only by the holder or within a valid allowance -/
 
@@ -411,6 +416,10 @@ theorem allowance_frame_both {s s' : State} {blk : Block} {snd : Addr} {msg : Ms
           · have := key_of_erase_ne hne; simp at this; exact this
           · have := key_of_erase_ne hne; simp at this; exact ⟨this.2, this.1⟩
       exact ⟨hk.1, spArg, rfl, hk.2⟩
+    case updateMarketing p d m =>
+      obtain ⟨mk, rfl, _⟩ := execUpdateMarketing_frame h; simp at hne
+    case uploadLogo l =>
+      obtain ⟨mk, rfl, _⟩ := execUploadLogo_frame h; simp at hne
 
 /-- **C02, allowance frame** (the map behind `query Allowance` / `AllAllowances`): the allowance of
 `(o, sp)` is changed by a successful call only by `o`'s own `Increase`/`DecreaseAllowance` for `sp`, or by
@@ -535,6 +544,8 @@ theorem send_notifies_once {s s' : State} {blk : Block} {snd : Addr} {msg : Msg}
     obtain ⟨_, _, _, _, _, _, _, ho⟩ := execBurnFrom_inv h; exact ho
   case sendFrom o c amt p =>
     obtain ⟨_, _, _, _, _, _, _, _, _, ho⟩ := execSendFrom_inv h; exact ho
+  case updateMarketing p d m => exact (execUpdateMarketing_frame h).choose_spec.2
+  case uploadLogo l => exact (execUploadLogo_frame h).choose_spec.2
 
 /-! ## Clause 3: over any history a spender never moves more than the owner cumulatively granted
 
@@ -683,6 +694,10 @@ theorem allowance_step {s s' : State} {blk : Block} {snd : Addr} {msg : Msg} {ou
         by_cases e : (snd, spArg.text) = p
         · subst e; simp [Allowance.default]
         · simp [e]
+    case updateMarketing p' d m =>
+      obtain ⟨mk, rfl, _⟩ := execUpdateMarketing_frame h; simp
+    case uploadLogo l =>
+      obtain ⟨mk, rfl, _⟩ := execUploadLogo_frame h; simp
 
 /-- Per call, the tokens that actually leave the owner's balance are at most the amount drawn. -/
 theorem moved_step {s s' : State} {blk : Block} {snd : Addr} {msg : Msg} {out : List Out}
@@ -702,7 +717,7 @@ def GInv (g : G) : Prop :=
 
 theorem ginit_inv {m : InstMsg} {s : State} (h : instantiate m = .ok s) : GInv (ginit s) := by
   simp [instantiate] at h
-  obtain ⟨_, _, b, t, _, _, w, _, rfl⟩ := h
+  obtain ⟨_, _, b, t, _, _, w, _, mk, lg, _, rfl⟩ := h
   intro p
   simp [ginit, tot, allowance, Allowance.default]
 
